@@ -189,10 +189,11 @@ static uint64_t g_runs = 0, g_strat_runs[3], g_sim_ns_total = 0, g_steps_total =
 static void print_run_line() {
   uint64_t ff = 0;
   for (int k = 0; k < USIM_F_COUNT; ++k) ff += R.fault_fired[k];
-  printf("R %llu %s %016llx %llu %llu %d %llu %d %zu %zu %llu\n", (unsigned long long)R.run_index,
+  printf("R %llu %s %016llx %llu %llu %d %llu %d %zu %zu %llu %016llx %016llx\n", (unsigned long long)R.run_index,
          kVerdictNames[R.verdict], (unsigned long long)R.hash, (unsigned long long)R.step,
          (unsigned long long)R.switches, R.nthreads, (unsigned long long)R.now_ns,
-         (R.nontrivial || ff) ? 1 : 0, R.tape.size(), R.decisions.size(), (unsigned long long)ff);
+         (R.nontrivial || ff) ? 1 : 0, R.tape.size(), R.decisions.size(), (unsigned long long)ff,
+         (unsigned long long)R.sem_seq, (unsigned long long)R.sem_set);
 }
 
 void end_run_with_verdict(int verdict, const char* oracle, const char* msg) {
@@ -239,7 +240,7 @@ static void configure_run(uint64_t run_index) {
   R.tape_pos = 0; R.dec_pos = 0;
   R.nthreads = 0; R.cur = -1; R.finished = 0;
   R.step = 0; R.switches = 0; R.change_counter = 1; R.seq = 0; R.hash = 0xcbf29ce484222325ull;
-  R.spin_last_change = 0; R.spin_resumes = 0; R.choice_ord = 0; R.picks = 0; R.plain_since_step = 0;
+  R.sem_seq = 0; R.sem_set = 0; R.spin_last_change = 0; R.spin_resumes = 0; R.choice_ord = 0; R.picks = 0; R.plain_since_step = 0;
   R.step_cap = O.step_cap;
   R.now_ns = 1000000000ull;  // start at t = 1 s so that "past" deadlines exist
   R.timers.clear(); R.timer_seq = 0;
